@@ -142,8 +142,8 @@ fn check_pair(ctx: &Ctx, lang: &str, language: &tree_sitter::Language, qsrc: &st
                 let mut it = c.matches(q, env.tree.root_node(), env.text);
                 for _ in 0..k { if it.next().is_none() { break; } }
             }
-            let m2 = env.matches(&mut c, q);
-            let c2 = env.captures(&mut c, q);
+            // (both orders of the two streams right after the abandoned iteration: stale buffered state shows in the first one)
+            let (m2, c2) = if k % 2 == 1 { let c2 = env.captures(&mut c, q); let m2 = env.matches(&mut c, q); (m2, c2) } else { let m2 = env.matches(&mut c, q); let c2 = env.captures(&mut c, q); (m2, c2) };
             res.transitions += 3;
             if strip_ids(&m2) != strip_ids(&base_m) { v(res, "re-exec-after-abandoned-iteration-differs", format!("after taking {} {} and dropping the iterator, the matches differ: {:?} vs {:?}", k, if first_is_captures { "captures" } else { "matches" }, strip_ids(&m2), strip_ids(&base_m)), json!({"abandoned_after": k})); break; }
             if seq(&c2) != seq(&base_c) { v(res, "re-exec-after-abandoned-iteration-differs", format!("after taking {} {} and dropping the iterator, the captures differ: {:?} vs {:?}", k, if first_is_captures { "captures" } else { "matches" }, seq(&c2), seq(&base_c)), json!({"abandoned_after": k})); break; }
